@@ -235,6 +235,11 @@ add("d_folder", Decl("Folder", [("offset_of_file", Bits(3)), ("pad", Bits(5)), (
 add("d_folder_overlap", Decl("FolderOverlap", [("offset_of_file", Bits(3)), ("pad", Bits(5)), ("payload", Data(3)),
                                                ("file_data", Data(2).at(Fld("offset_of_file")))]), 6, 9,
     "D", "move", "at", "overlap")
+# an 'offset + size' record: the (possibly EMPTY) body lives wherever the offset says, also on top of / inside / right at
+# the start of bytes other fields hold
+add("d_blob_at", Decl("BlobAt", [("o", Bits(3)), ("n", Bits(2)), ("p", Bits(3)), ("c", Int(1)),
+                                 ("body", Data(Fld("n")).at(Fld("o"))), ("tail", Int(1).at(3))]), 6, 8,
+    "D", "move", "at", "overlap", "emptyat")
 Vec = Decl("Vec", [("data", Data(2).at(1))])
 add("d_tensor", Decl("Tensor", [("vecs", Seq(Ref(Vec), count=2))]), 6, 7, "D", "move", "at", "nest", "seq", "ref")
 Option = Decl("Option", [("len", Bits(2)), ("pad", Bits(6)), ("data", Data(Fld("len")))])
